@@ -1,4 +1,5 @@
-import ShexerModel
+import ShexerModel.Model.Emit
+import ShexerModel.Model.Ctor
 open Shexer
 
 /-! Line-protocol driver: reads cases from stdin, prints the model's canonical output.
@@ -60,8 +61,57 @@ def runCase (st : DState) (what id : String) : List String :=
     | _ => ["bad-op"]
   ("BEGIN\t" ++ id) :: body ++ ["END"]
 
+def optStr (v : String) : Option String := if v == "~" then none else some v
+
+def setInit (a : InitArgs) (kv : String) : InitArgs :=
+  match kv.splitOn "=" with
+  | [k, v] =>
+    match k with
+    | "graph_file_input" => { a with graph_file_input := parseBool v }
+    | "graph_list_of_files_input" => { a with graph_list_of_files_input := parseBool v }
+    | "raw_graph" => { a with raw_graph := parseBool v }
+    | "url_graph_input" => { a with url_graph_input := parseBool v }
+    | "list_of_url_input" => { a with list_of_url_input := parseBool v }
+    | "url_endpoint" => { a with url_endpoint := parseBool v }
+    | "rdflib_graph" => { a with rdflib_graph := parseBool v }
+    | "target_classes" => { a with target_classes := parseBool v }
+    | "file_target_classes" => { a with file_target_classes := parseBool v }
+    | "shape_map_file" => { a with shape_map_file := parseBool v }
+    | "shape_map_raw" => { a with shape_map_raw := parseBool v }
+    | "all_classes_mode" => { a with all_classes_mode := parseBool v }
+    | "disable_or_statements" => { a with disable_or_statements := parseBool v }
+    | "allow_redundant_or" => { a with allow_redundant_or := parseBool v }
+    | "input_format" => { a with input_format := v }
+    | "compression_mode" => { a with compression_mode := optStr v }
+    | "examples_mode" => { a with examples_mode := optStr v }
+    | _ => a
+  | _ => a
+
+def setCall (c : CallArgs) (kv : String) : CallArgs :=
+  match kv.splitOn "=" with
+  | [k, v] =>
+    match k with
+    | "string_output" => { c with string_output := parseBool v }
+    | "output_file" => { c with output_file := parseBool v }
+    | "to_uml_path" => { c with to_uml_path := parseBool v }
+    | "output_format" => { c with output_format := v }
+    | "thNum" => { c with thNum := v.toInt?.getD 0 }
+    | "thDen" => { c with thDen := v.toNat?.getD 1 }
+    | _ => c
+  | _ => c
+
+def guardStr : Guard → String
+  | Guard.ok => "ok"
+  | Guard.valueError => "ValueError"
+  | Guard.otherError c => c
+
 def stepLine (st : DState) (line : String) : DState × List String :=
   match line.splitOn "\t" with
+  | "GUARD" :: "init" :: id :: kvs => (st, ["G\t" ++ id ++ "\t" ++ guardStr (Gen.init_guard (kvs.foldl setInit {}))])
+  | "GUARD" :: "ctor" :: id :: kvs => (st, ["G\t" ++ id ++ "\t" ++ guardStr (Ctor.ctor (kvs.foldl setInit {}))])
+  | "GUARD" :: "deferred" :: id :: kvs => (st, ["G\t" ++ id ++ "\t" ++ guardStr (Ctor.deferred (kvs.foldl setInit {}))])
+  | "GUARD" :: "shex" :: id :: kvs => (st, ["G\t" ++ id ++ "\t" ++ guardStr (Gen.shex_graph_guard (kvs.foldl setCall {}))])
+  | "GUARD" :: "profile" :: id :: kvs => (st, ["G\t" ++ id ++ "\t" ++ guardStr (Gen.profile_graph_guard (kvs.foldl setCall {}))])
   | "CFG" :: kvs => ({ st with cfg := kvs.foldl setCfg st.cfg }, [])
   | ["T", sk, s, p, ok, o] => ({ st with triples := st.triples.push { s := mkTerm sk s, p := p, o := mkTerm ok o } }, [])
   | ["RUN", what, id] => ({}, runCase st what id)
